@@ -40,6 +40,9 @@ func init() {
 			&vexplore.Scenario{Name: fmt.Sprintf("core-objects-hist-D%d", d), Mode: "hist", Reset: kit.ResetGlobals, Body: func() { coreHist(d) },
 				NeedCounters: []string{"census-clean", "closed-listener", "closed-dialer", "closed-pipe", "redial-pending-at-close", "refused-pipe"}},
 			&vexplore.Scenario{Name: "close-context-only", Mode: "enum", Reset: kit.ResetGlobals, Body: closeContextOnly},
+			&vexplore.Scenario{Name: "tcp-close-vs-incoming-connection", Mode: "sched", Bound: b + 1, Reset: kit.ResetGlobals, Body: tcpCloseVsAccept},
+			&vexplore.Scenario{Name: "close-of-a-listener-that-never-owned-the-address", Mode: "enum", Reset: kit.ResetGlobals, Body: closeLoserListener,
+				NeedCounters: []string{"winner-still-reachable"}},
 			&vexplore.Scenario{Name: "tcp-close-vs-stalled-handshake", Mode: "enum", Reset: kit.ResetGlobals, Body: tcpStalledHandshake,
 				NeedCounters: []string{"stalled-inbound-closed", "stalled-outbound"}},
 		)
@@ -620,6 +623,91 @@ func tcpStalledHandshake() {
 	}
 	kit.Count("census-clean")
 	kit.Observe("%s %s n=%d", k.Name, what, n)
+}
+
+// tcpCloseVsAccept: a peer connects (and sends its whole header) while the listening socket is
+// being closed.  Wherever Close falls relative to accept, handshake start and handshake completion,
+// afterwards the connection is closed and nothing of the socket remains.
+func tcpCloseVsAccept() {
+	s, err := kinds.ByName("xpub").New()
+	if err != nil {
+		kit.Failf("setup", "NewSocket: %v", err)
+	}
+	addr := "127.0.0.1:4320"
+	if err := s.Listen("tcp://" + addr); err != nil {
+		kit.Failf("setup", "Listen: %s", kit.ErrName(err))
+	}
+	kit.Quiesce()
+	ep := net.VGet(addr)
+	hdr := []byte{0, 'S', 'P', 0, byte(s.Info().Peer >> 8), byte(s.Info().Peer), 0, 0}
+	h := ep.Connect()
+	h.Feed(hdr)
+	cc := kit.Start("Close", func() (interface{}, error) { return nil, s.Close() })
+	kit.Quiesce()
+	if !cc.Done() {
+		kit.Failf("close-blocked:incoming-connection", "Close did not return while a connection was coming in")
+	}
+	kit.Sleep(time.Hour)
+	kit.Quiesce()
+	if !h.ClosedByMangos() {
+		kit.Failf("connection-left-open:incoming-at-close", "a connection that came in while the socket was being closed completed its handshake and is still open an hour later (header bytes written to it: %d)", len(h.Written()))
+	}
+	if bad := kit.Census(); bad != "" {
+		kit.Failf("leak:incoming-at-close", "connection coming in during Close: this remains: %s", bad)
+	}
+	kit.Observe("written=%d", len(h.Written()))
+}
+
+// closeLoserListener: closing a listener affects only that listener.  Socket A listens on an
+// inproc address.  On socket B a listener for the same address is created and (free choice) never
+// started, or started and refused (address in use); that listener, or all of socket B, is closed.
+// A's listener is still registered: a peer can dial it and attaches.
+func closeLoserListener() {
+	started := kit.ChooseFree(2) == 1
+	whole := kit.ChooseFree(2) == 1
+	a, err := kinds.ByName("xpub").New()
+	if err != nil {
+		kit.Failf("setup", "NewSocket: %v", err)
+	}
+	attached := 0
+	a.SetPipeEventHook(func(ev mangos.PipeEvent, p mangos.Pipe) {
+		if ev == mangos.PipeEventAttached {
+			attached++
+		}
+	})
+	addr := "inproc://c10-loser"
+	if err := a.Listen(addr); err != nil {
+		kit.Failf("setup", "Listen: %s", kit.ErrName(err))
+	}
+	b, _ := kinds.ByName("xpub").New()
+	l, err := b.NewListener(addr, nil)
+	if err != nil {
+		kit.Failf("setup", "NewListener: %s", kit.ErrName(err))
+	}
+	if started {
+		if err := l.Listen(); err != mangos.ErrAddrInUse {
+			kit.Failf("second-listen-result", "a second Listen on %s returned %s, want ErrAddrInUse", addr, kit.ErrName(err))
+		}
+	}
+	kit.Must("Close(loser)", func() {
+		if whole {
+			_ = b.Close()
+		} else {
+			_ = l.Close()
+		}
+	})
+	c, _ := kinds.ByName("sub").New()
+	dc := kit.Start("Dial", func() (interface{}, error) { return nil, c.Dial(addr) })
+	kit.Quiesce()
+	if !dc.Done() || dc.Err != nil || attached != 1 {
+		kit.Failf("close-affected-another-listener", "a listener that never owned %s was closed (started=%v, whole socket=%v); now Dial to the socket that does listen there: done=%v %s, attached=%d", addr, started, whole, dc.Done(), kit.ErrName(dc.Err), attached)
+	}
+	kit.Count("winner-still-reachable")
+	kit.Must("Close", func() { _ = a.Close(); _ = b.Close(); _ = c.Close() })
+	kit.Sleep(time.Hour)
+	kit.Quiesce()
+	census("close of a listener that never owned the address")
+	kit.Observe("%v %v", started, whole)
 }
 
 // Bodies re-run by C11 under the race-instrumented build.
